@@ -18,7 +18,7 @@ from vf.props import c03
 PROPERTY_ID = 'C16'
 RULE = ('plaintexts of 0,1,2,15,16,17,31,32,33,64,100,255,256,300,1000 and random lengths x bundles with 0-2 extension blocks '
         'and CRC types x modes COSE_Encrypt0 A256GCM / A128GCM (direct key) and COSE_Encrypt A256GCM with an A256KW-wrapped '
-        'content key x one or two targets per confidentiality block x fixed and generated IVs x receiver accept on/off; mutations: EVERY single-bit flip of the encoding for '
+        'content key x one or two targets per confidentiality block x oracle-built COSE_Encrypt with 1-3 recipients (the usable one first, last, in the middle, none) x fixed and generated IVs x receiver accept on/off; mutations: EVERY single-bit flip of the encoding for '
         'bundles <= 300 octets (sampled above), field-level edits with CRCs recomputed (primary fields, target flags/data, '
         'security source, scope map, protected header, IV, key id, wrapped key, GCM tag octets), wrong and missing keys. '
         'Non-trivial = a bundle carrying a confidentiality block for which oracle and receiver both produced a verdict; '
@@ -31,7 +31,7 @@ ASSUMPTIONS = [
 DECIDING = ['bp.app.bpsec:CoseContext.apply_bcb', 'bp.app.bpsec:CoseContext.verify_bcb', 'bp.app.bpsec:CoseContext.verify_bcb_target',
             'bp.app.bpsec:CoseSecOpCtx.get_external_aad', 'bp.app.bpsec:CoseSecOpCtx.decode_msg']
 REQUIRED_OBS = ['wire_ciphertext_confirmed', 'reencrypt_equal', 'plaintext_recovered', 'empty_plaintexts', 'kw_bundles',
-                'mutants_expect_reject', 'mutants_expect_accept', 'verify_fail_seen', 'wrong_key_runs', 'multi_target_bcbs']
+                'mutants_expect_reject', 'mutants_expect_accept', 'verify_fail_seen', 'wrong_key_runs', 'multi_target_bcbs', 'multi_recipient_recovered']
 
 KINDS = ['enc0-256', 'enc0-128', 'enc-kw']
 LENGTHS = [0, 1, 2, 15, 16, 17, 31, 32, 33, 64, 100, 255, 256, 300, 1000]
@@ -251,8 +251,26 @@ def cases(tier, seed):
             out.append(dict(id='multi-fields-%s-%d' % (kind, rep), kind='fields', cose=kind, seed=seed * 137 + idx, multi=True))
             out.append(dict(id='multi-roundtrip-%s-%d' % (kind, rep), kind='roundtrip', cose=kind, plen=rng_len(seed, idx), seed=seed * 139 + idx, reps=1, multi=True))
             idx += 1
+    out.append(dict(id='recipients', kind='recipients', seed=seed, reps=6 if thorough else 2))
     out.append(dict(id='keys', kind='keys', seed=seed))
     return out
+
+
+def oracle_bcb_bundle(rng, plain, recipients, crc=0, seq=9):
+    ''' A bundle whose confidentiality block (COSE_Encrypt, A256GCM, content key wrapped per recipient) is built by the oracle. '''
+    from vf import sec_harness as sh
+    bundle = c03.base_bundle(rng, 0, next_=1, crc=crc, seq=seq)
+    pay = bpv7.payload_of(bundle)
+    sec = dict(type=12, num=2, flags=0, crc_type=crc, data=b'', crc=None)
+    bundle['blocks'].insert(0, sec)
+    scope = {0: 1, -1: 1}
+    source_item = bpv7.eid_to_item(sh.SRC_NODE)
+    ext_aad = cb.external_aad(bundle, sec, pay, scope, b'', source_item)
+    cek = bytes(rng.getrandbits(8) for _ in range(32))
+    result, ciphertext = cb.make_enc_kw_result(3, recipients, cek, bytes(rng.getrandbits(8) for _ in range(12)), ext_aad, plain)
+    pay['data'] = ciphertext
+    sec['data'] = cb.encode_asb(dict(targets=[1], context_id=3, flags=1, source=sh.SRC_NODE, params=[(5, scope)], results=[[result]]))
+    return bpv7.encode(bundle)
 
 
 def rng_len(seed, idx):
@@ -263,7 +281,7 @@ def run_case(case):
     from vf import sec_harness as sh
     obs = dict(wire_ciphertext_confirmed=0, reencrypt_equal=0, plaintext_recovered=0, empty_plaintexts=0, kw_bundles=0, mutants_expect_reject=0,
                mutants_expect_accept=0, verify_fail_seen=0, wrong_key_runs=0, mutants_no_security_block=0, mutants_structural_no_obligation=0,
-               delivered_ciphertext_without_accept=0, distinct_generated_ivs=0, multi_target_bcbs=0)
+               delivered_ciphertext_without_accept=0, distinct_generated_ivs=0, multi_target_bcbs=0, multi_recipient_runs=0, multi_recipient_recovered=0)
     rng = random.Random(case['seed'])
     violations = []
     classes = set()
@@ -351,6 +369,30 @@ def run_case(case):
                     for mutant, label in c03.field_mutants(data, rng, 12) + bcb_field_mutants(data, rng):
                         for accept in (True, False):
                             note(judge(mutant, cose, plain, obs, label, accept=accept), mutant + bytes([accept]), label)
+        elif kind == 'recipients':
+            # COSE_Encrypt with several recipients: any one usable recipient is enough, wherever it stands in the list
+            layouts = [[(b'kk', sh.KEK)], [(b'kk', sh.KEK), (b'nobody', None)], [(b'nobody', None), (b'kk', sh.KEK)],
+                       [(b'kk', None), (b'kk', sh.KEK)], [(b'x1', None), (b'kk', sh.KEK), (b'x2', None)], [(b'nobody', None)], [(b'kk', None)]]
+            for rep in range(case['reps']):
+                for layout in layouts:
+                    plain = plaintext_for(rng, rng.choice([0, 5, 40, 300]))
+                    data = oracle_bcb_bundle(rng, plain, layout, crc=rng.choice([0, 2]), seq=rep + 1)
+                    usable = any(kek is not None for (_kid, kek) in layout)
+                    verdict, why = cb.verify_bundle(data, oracle_keys('enc-kw'))
+                    assert (verdict == 'ok') == usable, (verdict, why, layout)
+                    label = 'COSE_Encrypt with recipients %s' % [(kid.decode(), 'usable' if kek else 'unusable') for (kid, kek) in layout]
+                    for accept in (True, False):
+                        obs['multi_recipient_runs'] += 1
+                        problems = judge(data, 'enc-kw', plain, obs, label, accept=accept)
+                        if usable:
+                            dst, log, err, _le = receive(data, 'enc-kw', 'all', accept)
+                            delivered = dst.delivered()
+                            if len(delivered) != 1 or (accept and delivered[0]['payload'] != plain):
+                                problems.append(('not-recovered', '%s: a receiver holding the key of one recipient did not recover the plaintext '
+                                                 '(deliveries %d, log %s)' % (label, len(delivered), log[:2])))
+                            else:
+                                obs['multi_recipient_recovered'] += 1
+                        note(problems, data + bytes([accept]), label)
         elif kind == 'keys':
             for cose in KINDS:
                 bundle, plain, data = make(cose, 40, fixed_iv=False)
